@@ -45,10 +45,22 @@ fn apply_fixes(src: &str, fixes: &[Autofix]) -> String {
     fixes.sort_by_key(|b| std::cmp::Reverse(b.position.start_offset));
 
     let mut result = src.to_owned();
+    // The start of the most recently applied fix. Everything before
+    // this offset in `result` is still the original source.
+    let mut applied_start = src.len();
     for fix in fixes {
         let start = fix.position.start_offset;
         let end = fix.position.end_offset;
+        if end > applied_start {
+            // This fix overlaps with one we've already applied
+            // (e.g. two lints removing the same text). Applying both
+            // would corrupt the source, so skip it. It will be
+            // offered again the next time we check the file.
+            continue;
+        }
+
         result = format!("{}{}{}", &result[..start], fix.new_text, &result[end..]);
+        applied_start = start;
     }
     result
 }
